@@ -40,6 +40,23 @@ def init (env : Env) (start tip0 : Nat) : DState :=
 def eventsIn (env : Env) (f t : Nat) : List (Nat × List Nat) :=
   (List.range' f (t + 1 - f)).filterMap (fun b => if env.chain b = [] then none else some (b, env.chain b))
 
+/-- what `GetLogs(from, to)` hands to the grouping loop (after the topic / `Removed` filtering): the watched logs of the
+    range as (block number, log identity), ascending by block and in log order inside a block -/
+def logsIn (env : Env) (f t : Nat) : List (Nat × Nat) :=
+  (List.range' f (t + 1 - f)).flatMap (fun b => (env.chain b).map (fun id => (b, id)))
+
+/-- the grouping loop of `getEventsByBlockRangeWithRetry`: a new block is opened when there is none yet or the log's block
+    number exceeds the open block's (`latestBlock == nil || latestBlock.Num < l.BlockNumber`); otherwise the log is
+    appended to the open block -/
+def groupLogs : List (Nat × Nat) → List (Nat × List Nat) → List (Nat × List Nat)
+  | [], acc => acc
+  | l :: rest, acc =>
+    match acc.getLast? with
+    | some last =>
+      if last.1 < l.1 then groupLogs rest (acc ++ [(l.1, [l.2])])
+      else groupLogs rest (acc.dropLast ++ [(last.1, last.2 ++ [l.2])])
+    | none => groupLogs rest (acc ++ [(l.1, [l.2])])
+
 /-- `getEventsByBlockRangeWithRetry`: after `eth_getLogs` the header of every event block is fetched and its hash
     compared with the logs'; on a mismatch (a reorg or a lagging backend in between) the WHOLE range is fetched again,
     at most `MaxRetryCountBlockHashMismatch` = 5 times, then the function gives up and returns nothing (`none`).
